@@ -158,6 +158,15 @@ def enabled_events(tracks, w, kinds=None):
     if want("del_node"):
         for n in nodes:
             ev.append(("del_node", n))
+            if w["seg"]:
+                # the optional argument "pixels of the node, if known": the node's own mask handed in
+                # (accepted; nothing is looked up in the array) and a mask outside the array (refused
+                # by the final DeleteNode, i.e. after edges were removed / re-connected)
+                ev.append(("del_node", n, "own_pix"))
+                ev.append(("del_node", n, "bad_pix"))
+            else:
+                # pixels for tracks that have no label array: refused by the final DeleteNode
+                ev.append(("del_node", n, "bad_pix"))
         ev.append(("del_node", UNKNOWN))
     if want("del_edge"):
         for u, v in sorted(g.edges):
@@ -415,6 +424,15 @@ def apply_event(tracks, w, ev, restore_on_refusal=True) -> Outcome:
         if kind == "del_edge":
             return UserDeleteEdge(tracks, (ev[1], ev[2]))
         if kind == "del_node":
+            variant = ev[2] if len(ev) > 2 else None
+            if variant == "own_pix":
+                return UserDeleteNode(tracks, ev[1], pixels=tracks.get_pixels(ev[1]))
+            if variant == "bad_pix":
+                if w["seg"]:
+                    far = tuple(np.array([s]) for s in tracks.segmentation.shape)
+                else:
+                    far = tuple(np.array([0]) for _ in range(w["ndim"]))
+                return UserDeleteNode(tracks, ev[1], pixels=far)
             return UserDeleteNode(tracks, ev[1])
         if kind == "add_node":
             _, nid, t, tid, force, variant, pix = ev[:7]
